@@ -146,7 +146,8 @@ def predecessor(sim, rng, server_ip=None):
         mc.option(rng.choice([b"s", b"u", b"v"]))
     if rng.random() < 0.6:
         mc.option(b"l")
-    mc.set_frag(rng.choice([20, 50, 200]))
+    # never above what one answer of this record type can carry (a real client finds that limit by probing)
+    mc.set_frag(rng.choice([20, 50, 200] if mc.qtype in (proto.T_TXT, proto.T_NULL) else [20, 50, 100]))
     srv_tun = sim.tun_net.split("/")[0]
     # a few packets arrive for it; it fetches the beginning of the first one and is never heard of again
     for i in range(rng.randint(2, 4)):
